@@ -63,12 +63,16 @@ type baseReader struct {
 	r       *rand.Rand
 	handed  int
 	endSeen int
+	wrapEOF bool // the end of the input is reported as an error that wraps io.EOF
 }
 
 func (b *baseReader) endErr() error {
 	b.endSeen++
 	if b.fault {
 		return errInjected
+	}
+	if b.wrapEOF {
+		return fmt.Errorf("verif: connection closed: %w", io.EOF)
 	}
 	return io.EOF
 }
@@ -129,7 +133,7 @@ type plainReaderFlavour struct{ b *baseReader }
 
 func (p plainReaderFlavour) Read(q []byte) (int, error) { return p.b.Read(q) }
 
-var readerFlavours = []string{"io.Reader", "io.ByteReader", "1-byte reads", "random chunks", "data+EOF", "chunks with Len() = buffered now"}
+var readerFlavours = []string{"io.Reader", "io.ByteReader", "1-byte reads", "random chunks", "data+EOF", "chunks with Len() = buffered now", "io.ByteReader whose end error wraps io.EOF"}
 
 func mkReader(flavour int, data []byte, fault bool, r *rand.Rand) (io.Reader, *baseReader) {
 	b := &baseReader{data: data, fault: fault, r: r}
@@ -147,6 +151,9 @@ func mkReader(flavour int, data []byte, fault bool, r *rand.Rand) (io.Reader, *b
 	case 5:
 		b.mode = 2
 		return lenReaderFlavour{b}, b
+	case 6:
+		b.wrapEOF = true
+		return byteReaderFlavour{b}, b
 	}
 	return plainReaderFlavour{b}, b
 }
@@ -787,6 +794,7 @@ func famCodec(dir string, seed int64, tier string) {
 	}
 
 	apiHugeBlob(repDec)
+	apiEncodeRetry(repEnc)
 	apiPolledDecoder(repDec, r)
 	apiFilterOverFaults(repDec)
 	apiEncodeBesideUnmarshal(repEnc)
